@@ -327,7 +327,7 @@ struct Engine
         (void)stage;
         if (out().viol_in_case) { cut = true; return; }
         ledger().check_all_canaries();
-        size_t expect_tracked = 0;
+        size_t expect_tracked = 0, expect_tracked_optional = 0;
         size_t data_owners = 0, vecs = 0, residual = 0;
         for (int i = 0; i < POOL; ++i)
         {
@@ -336,11 +336,21 @@ struct Engine
             MVec& m = s[i].m;
             if (m.moved_from)
             {
-                if (m.residual) { ++residual; expect_tracked += m.residual_objects; }
-                // a vector whose storage was taken over owns nothing: memory_consumption() (an observer without preconditions)
-                // must not keep reporting the block it gave away
-                else if (std::as_const(*s[i].v).memory_consumption() != 0)
-                    viol("C05,C02", "moved_from_reports_memory", fmt("v%d gave its storage away but memory_consumption() == %zu", i, std::as_const(*s[i].v).memory_consumption()));
+                // A moved-from vector is valid but unspecified: whether it still owns a block (an implementation may hand it
+                // the target's old one) and whether the moved-from objects of an element-wise move are still alive is its
+                // business. Observers without preconditions tell: it must not report memory it does not own.
+                const Vec& mv = *s[i].v;
+                const auto mdb = reinterpret_cast<uintptr_t>(mv.data_begin());
+                const Block* mblk = mdb ? ledger().find_live(mdb) : nullptr;
+                if (mblk)
+                {
+                    ++residual;
+                    if (mv.memory_consumption() > mblk->bytes)
+                        viol("C05,C02", "memory_consumption_exceeds_block", fmt("moved-from v%d: memory_consumption() == %zu but it owns a block of %zu bytes", i, mv.memory_consumption(), mblk->bytes));
+                }
+                else if (mv.memory_consumption() != 0)
+                    viol("C05,C02", "moved_from_reports_memory", fmt("moved-from v%d owns no block but memory_consumption() == %zu", i, mv.memory_consumption()));
+                if (m.residual) expect_tracked_optional += m.residual_objects;
                 continue;
             }
             char who[8];
@@ -358,8 +368,8 @@ struct Engine
         }
         // C06: the live objects are exactly the logically held ones
         registry().sweep();
-        if (Cfg::HAS_TRACKED && registry().live.size() != expect_tracked)
-            viol("C06", "live_set_mismatch", fmt("%zu instrumented objects are alive, the containers logically hold %zu", registry().live.size(), expect_tracked));
+        if (Cfg::HAS_TRACKED && (registry().live.size() < expect_tracked || registry().live.size() > expect_tracked + expect_tracked_optional))
+            viol("C06", "live_set_mismatch", fmt("%zu instrumented objects are alive, the containers logically hold %zu (plus at most %zu moved-from objects in moved-from vectors)", registry().live.size(), expect_tracked, expect_tracked_optional));
         // every live object sits inside a live block
         for (auto& [a, e] : registry().live)
             if (!ledger().find_live(a))
